@@ -722,7 +722,7 @@ def r11_multiword_training_runs(ctx, rule):
 def rules(tier):
     return [('C05.R1', r1_splice_discipline), ('C05.R2', r2_slice_tiling), ('C05.R4', r4_multiword_parts),
             ('C05.R5', r5_totality), ('C05.R6', r6_counter_pairing), ('C05.R7', r7_index_space), ('C05.R8', r8_constants),
-            ('C05.R9', c03.r2_mask_producer), ('C05.R10', r10_keyboard_single_layout),
+            ('C05.R10', r10_keyboard_single_layout),
             ('C05.R11', r11_multiword_training_runs)]
 
 
